@@ -274,6 +274,11 @@ func atom(t *rapid.T, label string, extra []string, forbid func(string) bool) st
 func GenString(t *rapid.T, q byte, label string) string {
 	qs := string(q)
 	extra := []string{qs + qs, "\\" + qs, "\\\\", "\\n", "\\%", "\\x", "\\?", "\\;", "\\'", "\\\"", "\\0", qs + qs}
+	if rapid.IntRange(0, 4).Draw(t, label+"_short") == 0 {
+		// the shortest forms: empty, one character, one escape, only quotes
+		body := rapid.SampledFrom([]string{"", "?", ";", "\\\\", "\\\\\\\\", "\\" + qs, qs + qs, "\\?", "\\" + qs + "?", qs + qs + "?", "?" + "\\\\", "\\\\" + qs + qs}).Draw(t, label+"_sb")
+		return qs + body + qs
+	}
 	n := rapid.IntRange(0, 6).Draw(t, label+"_n")
 	var b strings.Builder
 	b.WriteByte(q)
@@ -287,6 +292,10 @@ func GenString(t *rapid.T, q byte, label string) string {
 // GenBackquoted returns a complete quoted identifier.
 func GenBackquoted(t *rapid.T, label string) string {
 	extra := []string{"``", "\\", "x"}
+	if rapid.IntRange(0, 4).Draw(t, label+"_short") == 0 {
+		// shortest forms (the empty identifier is lexically complete, whatever the grammar says later)
+		return "`" + rapid.SampledFrom([]string{"", "?", ";", "``", "\\", "'", "\"", "``?", "?``", "\\?"}).Draw(t, label+"_sb") + "`"
+	}
 	n := rapid.IntRange(1, 5).Draw(t, label+"_n")
 	var b strings.Builder
 	b.WriteByte('`')
@@ -297,23 +306,34 @@ func GenBackquoted(t *rapid.T, label string) string {
 	return b.String()
 }
 
+// blockBodies are block-comment bodies chosen for the comment's own delimiters:
+// empty, as short as possible, beginning with '/' or '*' (the closing "*/" cannot
+// overlap the opening "/*", so "/*/" is an OPEN comment), ending in '*'.
+var blockBodies = []string{"", "*", "/", "**", "/ ? ", "/?", "/ ;", " * / ? ", "?", ";", " ? *", " ; **", "/*", "/ * ", "*?", "* ?*", "/'", "/ \" ", "*'?"}
+
 // GenComment returns a complete comment of the given kind. Line comments end
 // with a newline unless open is true (only legal for the last token of a text).
 func GenComment(t *rapid.T, k Kind, open bool, label string) string {
+	if k == CBlock && rapid.IntRange(0, 3).Draw(t, label+"_short") == 0 {
+		return "/*" + rapid.SampledFrom(blockBodies).Draw(t, label+"_bb") + "*/"
+	}
 	n := rapid.IntRange(0, 6).Draw(t, label+"_n")
 	var body strings.Builder
 	for i := 0; i < n; i++ {
-		body.WriteString(atom(t, label, []string{"\\", "\\'", "don't"}, func(s string) bool {
-			return k == CBlock && (s == "/*" || s == "*") // keep "*/" out of block comments
-		}))
+		body.WriteString(atom(t, label, []string{"\\", "\\'", "don't", "/", "*", "**"}, nil))
 	}
 	bs := body.String()
 	switch k {
 	case CBlock:
+		// "*/" must not occur inside the body, nor be formed by the body's last '*'... which is fine:
+		// "/* x **/" ends at the first "*/", which is the real terminator
+		for strings.Contains(bs, "*/") {
+			bs = strings.ReplaceAll(bs, "*/", "* /")
+		}
 		if strings.HasPrefix(bs, "!") || strings.HasPrefix(bs, "+") {
 			bs = " " + bs
 		}
-		return "/*" + strings.ReplaceAll(bs, "*/", "* /") + "*/"
+		return "/*" + bs + "*/"
 	case CHash:
 		bs = strings.TrimRight(bs, ";")
 		if open {
@@ -322,10 +342,18 @@ func GenComment(t *rapid.T, k Kind, open bool, label string) string {
 		return "#" + bs + "\n"
 	default:
 		bs = strings.TrimRight(bs, ";")
-		if open {
-			return "-- " + bs
+		// "--" needs one whitespace/control character (or the end of the text) behind it
+		if bs == "" && rapid.Bool().Draw(t, label+"_bare") {
+			if open {
+				return "--"
+			}
+			return "--\n"
 		}
-		return "-- " + bs + "\n"
+		sep := rapid.SampledFrom([]string{" ", " ", "\t"}).Draw(t, label+"_sep")
+		if open {
+			return "--" + sep + bs
+		}
+		return "--" + sep + bs + "\n"
 	}
 }
 
